@@ -218,17 +218,37 @@ func TestBoundedB5(t *testing.T) {
 	for _, p := range []string{"C07", "C12", "C16", "C13"} {
 		r[p] = &boundedReport{Property: p, Check: "B5-module-sets", Function: "TransformModuleFilesToModel", Scope: scope, Exhaustive: true}
 	}
+	type job struct {
+		sub    []int
+		layout int // 0: as written; 1: every line ends in 14 blanks; 2: CRLF line ends
+	}
+	var jobs []job
 	for _, sub := range subsets(len(modulePool), maxK) {
+		jobs = append(jobs, job{sub, 0})
+		if len(sub) <= 2 {
+			// positions must not depend on what follows the declaration on its line
+			jobs = append(jobs, job{sub, 1}, job{sub, 2})
+		}
+	}
+	for _, jb := range jobs {
+		sub := jb.sub
 		successByPerm := map[bool]int{}
 		var firstModelDigest string
 		for _, perm := range permsInt(sub) {
 			var files []transformer.ModuleFile
 			var names []string
 			for _, i := range perm {
-				files = append(files, modulePool[i])
-				names = append(names, modulePool[i].Name)
+				f := modulePool[i]
+				switch jb.layout {
+				case 1:
+					f.Contents = strings.ReplaceAll(f.Contents, "\n", "              \n")
+				case 2:
+					f.Contents = strings.ReplaceAll(f.Contents, "\n", "\r\n")
+				}
+				files = append(files, f)
+				names = append(names, f.Name)
 			}
-			id := strings.Join(names, ", ")
+			id := strings.Join(names, ", ") + []string{"", " [trailing blanks]", " [CRLF]"}[jb.layout]
 			want := specConflicts(files)
 			var firstErrs []string
 			var firstDigest string
